@@ -14,6 +14,8 @@ SER_CARRIERS = {SER + "Serialize", SER + "Serializer"}
 DE_CARRIERS = {DE + x for x in ("Deserializer", "Visitor", "SeqAccess", "MapAccess", "EnumAccess", "VariantAccess",
                                 "DeserializeSeed", "Deserialize")}
 KEY_METHODS = {"serialize_key", "next_key_seed"}
+# (callee name, generic parameter) slots that carry a map KEY and therefore must be wrapped with the key behaviour
+KEY_SLOTS = {("serialize_key", "T"), ("next_key_seed", "K"), ("next_key", "K"), ("serialize_entry", "K"), ("next_entry_seed", "K"), ("next_entry", "K")}
 
 
 def surface_allow():
@@ -143,7 +145,7 @@ def check_wrapper_impls(ctx, crate, W, traits, behavior_trait, carriers, rule):
                         ctx.check(ty_eq(ta, inner_p), rule, b.loc(t["ln"]), f"{tr}::{name}|{f['name']}|{g}",
                                   f"{name}: behaviour receives {tystr(ta)} as the underlying format driver, expected the raw inner {tystr(inner_p)}", instance=inst)
                         continue
-                    exp_b = key_behavior_of(b_p, behavior_trait) if name in KEY_METHODS else b_p
+                    exp_b = key_behavior_of(b_p, behavior_trait) if (f["name"], g) in KEY_SLOTS else b_p
                     core_t = strip_refs(ta)
                     good = ty_adt(core_t) == W and len(core_t.get("args", [])) == 2 and ty_eq(core_t["args"][1], exp_b)
                     ctx.check(good, rule, b.loc(t["ln"]), f"{tr}::{name}|{f['name']}|{g}",
